@@ -5,7 +5,7 @@ const ghostPreludeMarker = "// ---- ghost prelude ----"
 // Names the engine intercepts (their Go bodies exist for replay only).
 var ghostBuiltinNames = []string{
 	"seq", "seqOf", "bytesOf", "cat", "cat3", "cat4", "b1", "u16be", "sub", "slen", "sat", "mkseq", "seqEq", "seq0",
-	"sameSlice", "forallKey", "maxAlloc", "msnap", "mapSnap", "guardSnap", "snapHas", "snapGet", "mapHas", "forall", "exists", "fresh", "arrayOf", "sameArray", "ite",
+	"sameSlice", "forallKey", "maxAlloc", "msnap", "mapSnap", "guardSnap", "guardVal", "snapHas", "snapGet", "mapHas", "forall", "exists", "fresh", "arrayOf", "sameArray", "ite",
 	"evCount", "evIndex", "evArg", "evBytes", "evRet", "evTotal",
 	"holds", "holdsR", "closed", "isNilFunc", "closureIs", "closureVar", "sameFunc", "dynType", "typeIs",
 	"strBytesEq", "runeOK", "validUTF8", "utf8norm", "utf8normOf", "ovfFree", "unchanged", "fnCode", "readyAt",
@@ -109,6 +109,12 @@ func evArg[T any](name string, k, arg int) T { var z T; return z }
 func evRet[T any](name string, k, res int) T { var z T; return z }
 
 func ghostTrue() bool { return true }
+
+// guardVal(&x.f): value the lock-guarded field had right after its guard was last acquired (verifier only).
+func guardVal[T any](p *T) T { return *p }
+
+// closed(ch): ghost "channel ch has been closed" (verifier only).
+func closed[T any](ch chan T) bool { return false }
 
 // closureIs(f, "name"): the function value f was created from the function literal / function called name.
 func closureIs[F any](f F, name string) bool { return true }
